@@ -14,7 +14,7 @@ except Exception: pass
 print(" ".join(cs))
 PY
 }
-ls seeded | while read S; do echo "$S $(extra $S)"; done | xargs -P $J -L 1 bash -c 'bin/run_seed.sh "$@" > /var/tmp/sweep-$0.log 2>&1' 
+ls seeded | while read S; do echo "$S $(extra $S)"; done | xargs -P $J -L 1 bash -c 'bin/run_seed.sh "$0" "$@" > /var/tmp/sweep-$0.log 2>&1' 
 for S in $(ls seeded); do python3 - "$S" <<'PY'
 import json,sys
 S=sys.argv[1]
